@@ -63,8 +63,10 @@ def r9(run, tree):
     run.rule("C03.R9", "u and v span the plane normal to the requested direction (completion of a bare normal)",
              "D1 rational identities (shared with C18.R3/R4)", "", floor=4)
     cur = run.cur_rule
+    from . import direction_folds as df
     for fn in (r3_perpendicular, r4_handedness):
         fn(run, tree)
+    df.check_string_forms(run, tree)
         # re-label the obligations recorded under the C18 rule ids
     for o in run.obs:
         if o.rule.startswith("C18."):
